@@ -16,7 +16,9 @@ RULE_GRID = ("query objects run through the real apply_input_plugins with the gr
              "non-trivial = accepted expansion with >=1 array field and (>=2 combinations or an object option); distinct by query text")
 RULE_SET = ("the same cases; I = produced queries as a sorted list of texts (a multiset), S = specification GS.spec_stages "
             "(per grid stage every query replaced by its Cartesian product built by direct recursion, no MultiSet, no indices) sorted by the verified stdlib merge sort, "
-            "M = the model's result sorted; cases outside the property's domain (rejected sections, non-object queries) "
+            "M = the model's result sorted; output-side clause decided in Coq on EVERY successful implementation result (from "
+            "its top-level key lists embedded in the S term): when the chain ends with the grid search no produced query has "
+            "a grid_search key, else S reads as a violation; cases outside the property's domain (rejected sections, non-object queries) "
             "print S = unspecified and are compared with M only")
 
 
